@@ -24,21 +24,21 @@ Global Arguments nth : simpl never.
 
 Definition io_holds (pc : iopc) : bool :=
   match pc with
-  | IoFlush ML | IoSubL _ | IoRelX | IoNotify | IoRelL => true
+  | IoFlush | IoSubL _ | IoRelX | IoNotify | IoRelL => true
   | IoHcTot _ | IoHcConn _ | IoHcNotify _ | IoHcRel _ => true
-  | IoHcClose (KFlush ML) => true
+  | IoHcClose KFlush => true
   | _ => false
   end.
 
 Definition io_cnt (pc : iopc) : nat :=
   match pc with
-  | IoHcTot (KFlush ML) | IoHcConn (KFlush ML) | IoHcNotify (KFlush ML) => 2
+  | IoHcTot KFlush | IoHcConn KFlush | IoHcNotify KFlush => 2
   | _ => if io_holds pc then 1 else 0
   end.
 
 Definition io_ok (pc : iopc) : bool :=
   match pc with
-  | IoHcAcq (KFlush ML) | IoHcRel (KFlush ML) => false
+  | IoHcAcq KFlush | IoHcRel KFlush => false
   | _ => true
   end.
 
@@ -62,17 +62,10 @@ Definition w_ok (pc : wpc) : bool :=
   | _ => true
   end.
 
-Definition r_io (pc : iopc) : bool :=
-  match pc with IoRcvWc _ | IoRcvCwf _ | IoRcvApp _ | IoRcvRel _ => true | _ => false end.
-Definition r_w (pc : wpc) : bool :=
-  match pc with WCloseCwf | WCloseReq | WCloseRel | WPopPop | WPopConn | WPopRel => true | _ => false end.
-
 Definition L0 (s : state) : Prop :=
   olock s = (if io_holds (io s) then Some TIo else if w_holds (wk s) then Some TW else None)
   /\ ocount s = (if io_holds (io s) then io_cnt (io s) else w_cnt (wk s))
   /\ io_holds (io s) && w_holds (wk s) = false
-  /\ rlock s = (if r_io (io s) then Some TIo else if r_w (wk s) then Some TW else None)
-  /\ r_io (io s) && r_w (wk s) = false
   /\ io_ok (io s) = true /\ w_ok (wk s) = true.
 
 Ltac inv_some :=
@@ -112,9 +105,9 @@ Ltac b2p := repeat match goal with
   | H : negb _ = true |- _ => apply negb_true_iff in H
   end.
 
-Ltac ds s := destruct s as [total0 pending0 connected0 will_close0 cwf0 nreq0 olock0 ocount0 rlock0 pulled0 in_map0 sock_closed0 closed_bufs0 reading0 gone0 pending_in0 io0 wk0 wq0 wclose0 cur0 queued0 tailsA0 tailsB0 appended0 wire0 last_write0].
+Ltac ds s := destruct s as [total0 pending0 connected0 will_close0 cwf0 nreq0 olock0 ocount0 rlock0 pulled0 in_map0 sock_closed0 closed_bufs0 reading0 gone0 pending_in0 io0 wk0 wq0 wclose0 cur0 queued0 tlc0 trel0 tailsA0 tailsB0 appended0 wire0 last_write0].
 
-Ltac unf := unfold enter_flush, w_flush_done, fb_loop, fb_exit, goto_append, next_write, end_service, enter_io_flush, io_flush_done, enter_hc, to_top, wake_w, acq, rel, send_ok, rdy_r, rdy_w in *.
+Ltac unf := unfold hand_over, enter_flush, w_flush_done, fb_loop, fb_exit, goto_append, next_write, end_service, enter_io_flush, io_flush_done, enter_hc, to_top, wake_w, acq, rel, send_ok, rdy_r, rdy_w in *.
 
 Lemma L0_init : L0 init.
 Proof. unfold L0, init; cbn; repeat split; reflexivity. Qed.
@@ -123,17 +116,15 @@ Lemma w_cnt0 pc : w_holds pc = false -> w_cnt pc = 0%nat.
 Proof. destruct pc; cbn; try discriminate; try reflexivity; destruct c; cbn; congruence. Qed.
 
 Lemma io_cnt0 pc : io_holds pc = false -> io_cnt pc = 0%nat.
-Proof. destruct pc; cbn; try discriminate; try reflexivity; try (destruct k as [|[]|]; cbn; congruence); destruct m; cbn; congruence. Qed.
+Proof. destruct pc; cbn; try discriminate; try reflexivity; try (destruct k; cbn; congruence). Qed.
 
 Ltac rw := repeat match goal with
   | H : w_holds ?x = _ |- context [w_holds ?x] => rewrite H
-  | H : r_w ?x = _ |- context [r_w ?x] => rewrite H
   | H : io_holds ?x = _ |- context [io_holds ?x] => rewrite H
-  | H : r_io ?x = _ |- context [r_io ?x] => rewrite H
   end.
 Ltac gifs := repeat match goal with |- context [if ?b then _ else _] => let E := fresh "G" in destruct b eqn:E end.
 Ltac hifs := repeat match goal with H : (if ?b then _ else _) = _ |- _ => let E := fresh "G" in destruct b eqn:E; try discriminate H end.
-Ltac dk := repeat match goal with k : hck |- _ => destruct k | m : fmode |- _ => destruct m | c : fctx |- _ => destruct c end.
+Ltac dk := repeat match goal with k : hck |- _ => destruct k | c : fctx |- _ => destruct c end.
 Ltac fin0 := dk; hifs; try discriminate; unfold L0; unf; cbn; rw; gifs; cbn; rw; repeat split;
   try reflexivity; try assumption; try congruence;
   try (rewrite w_cnt0 by assumption; reflexivity);
@@ -143,9 +134,9 @@ Ltac fin0 := dk; hifs; try discriminate; unfold L0; unf; cbn; rw; gifs; cbn; rw;
 Lemma L0_step_io p s r res s' l : L0 s -> step_io p s r res = Some (s', l) -> L0 s'.
 Proof.
   intros H E. ds s. unfold L0 in H. cbn in H.
-  destruct H as (Ho & Hc & Hx & Hr & Hrx & Hio & Hw).
+  destruct H as (Ho & Hc & Hx & Hio & Hw).
   unfold step_io in E. cbn [ChanFlow.io] in E.
-  destruct io0; cbn in Ho, Hc, Hx, Hr, Hrx, Hio; subst olock0 ocount0 rlock0.
+  destruct io0; cbn in Ho, Hc, Hx, Hio; subst olock0 ocount0.
   all: cbn in E; unf; cbn in E.
   all: split_ifs E; try discriminate; try inv_some.
   all: fin0.
@@ -154,9 +145,9 @@ Qed.
 Lemma L0_step_w p s r s' l : L0 s -> step_w p s r = Some (s', l) -> L0 s'.
 Proof.
   intros H E. ds s. unfold L0 in H. cbn in H.
-  destruct H as (Ho & Hc & Hx & Hr & Hrx & Hio & Hw).
+  destruct H as (Ho & Hc & Hx & Hio & Hw).
   unfold step_w in E. cbn [ChanFlow.wk] in E.
-  destruct wk0; cbn in Ho, Hc, Hx, Hr, Hrx, Hw; subst olock0 ocount0 rlock0.
+  destruct wk0; cbn in Ho, Hc, Hx, Hw; subst olock0 ocount0.
   all: cbn in E; unf; cbn in E.
   all: split_ifs E; try discriminate; try inv_some.
   all: fin0.
@@ -164,7 +155,7 @@ Qed.
 
 Lemma L0_step p s c s' l : L0 s -> step p s c = Some (s', l) -> L0 s'.
 Proof.
-  destruct c as [r res|r|b|a]; cbn [step].
+  destruct c as [r res|r|n|a]; cbn [step].
   - apply L0_step_io.
   - apply L0_step_w.
   - intros H E. ds s. unfold step_tail in E. cbn in E.
